@@ -74,7 +74,9 @@ def iter_episode(spec, uid="E", shared=None, events=None):
         kwargs = dict(kw)
         if aliases is not None:
             # "=SELF": the alias text is the module's own rendered name
-            aliases = [dict(a, text=render(a["mod"]) if a["text"] == "=SELF" else a["text"]) for a in aliases]
+            # "=NAMEOF": the alias text is the rendered name of another module (plus an optional suffix)
+            aliases = [{"mod": a["mod"], "text": render(a["mod"]) if a["text"] == "=SELF" else
+                        render(a["of"]) + a.get("suffix", "") if a["text"] == "=NAMEOF" else a["text"]} for a in aliases]
             pairs = [(render(a["mod"]), a["text"]) for a in aliases]
             if it.get("order") == "desc":
                 pairs.reverse()
